@@ -763,6 +763,109 @@ pub fn main(args: &[String]) {
                 rep.distinct += 1;
             });
         }
+        Some("singlepos") => {
+            // GPOS single adjustment (beyond the listed property; its grouping of glyphs by value record goes through hash maps):
+            // every rule set is compiled twice - the bytes must be equal (C07) - and read back with raw getters: every rule
+            // glyph gets its value from the first subtable that covers it, no other glyph gets one
+            use read_fonts::tables::gpos::SinglePos as RSinglePos;
+            use write_fonts::tables::gpos::builders::SinglePosBuilder;
+            let seed: u64 = arg_after(args, "--seed").map(|s| s.parse().unwrap()).unwrap_or(0);
+            let n: usize = arg_after(args, "--n").map(|s| s.parse().unwrap()).unwrap_or(200);
+            let mut rng = Rng::new(seed ^ 0x51b);
+            let vals: Vec<Val> = vec![v3(10, 0, 0), v3(10, 5, 0), v3(0, 0, 3), [0, 0, 0, 7, 0, 0, 0, 0], [1, 2, 3, 4, 5, 6, 7, 8], v3(-10, 0, 0), ZERO, [0, 0, 0, 0, 9, 0, 0, 2]];
+            for _ in 0..n {
+                rep.evaluations += 1;
+                let k = 1 + rng.below(24) as usize;
+                let nv = 1 + rng.below(vals.len() as u64) as usize;
+                let mut rules: BTreeMap<u16, Val> = BTreeMap::new();
+                for _ in 0..k {
+                    rules.insert(*rng.pick(&[1u16, 2, 3, 4, 5, 6, 7, 8, 20, 21, 22, 300, 301, 302, 303, 304, 305, 306, 65534, 65535]), vals[rng.below(nv as u64) as usize]);
+                }
+                let case = json!({"kind": "singlepos-case", "rules": rules.iter().map(|(g, v)| json!([g, v])).collect::<Vec<_>>()});
+                let compile = || -> Result<Vec<u8>, String> {
+                    let mut b = SinglePosBuilder::default();
+                    for (g, v) in &rules {
+                        b.insert(GlyphId16::new(*g), vrb(*v));
+                    }
+                    let lb = LookupBuilder::new_with_lookups(LookupFlag::empty(), None, vec![b]);
+                    let lookup = lb.build(&mut VariationStoreBuilder::new(0));
+                    let gpos = Gpos::new(Default::default(), Default::default(), LookupList::new(vec![PositionLookup::Single(lookup)]));
+                    write_fonts::dump_table(&gpos).map_err(|e| format!("{e}"))
+                };
+                let (a, b) = match guarded(|| (compile(), compile())) {
+                    Err(p) => {
+                        rep.violation(&format!("GPOS compilation panicked: {p}"), case);
+                        continue;
+                    }
+                    Ok((Ok(a), Ok(b))) => (a, b),
+                    Ok((a, b)) => {
+                        rep.add("growth_findings", 1);
+                        rep.sample(json!({"growth": format!("single adjustment rules do not compile: {:?} / {:?}", a.err(), b.err()), "case": case}));
+                        continue;
+                    }
+                };
+                if a != b {
+                    rep.violation("compiling the same single adjustment rules twice gives different bytes", case.clone());
+                    continue;
+                }
+                // read back
+                let check = || -> Result<Option<String>, String> {
+                    let gpos = RGpos::read(FontData::new(&a)).map_err(|e| e.to_string())?;
+                    let mut subs: Vec<RSinglePos> = vec![];
+                    for l in gpos.lookup_list().map_err(|e| e.to_string())?.lookups().iter() {
+                        match l.map_err(|e| e.to_string())?.subtables().map_err(|e| e.to_string())? {
+                            PositionSubtables::Single(list) => {
+                                for s in list.iter() {
+                                    subs.push(s.map_err(|e| e.to_string())?);
+                                }
+                            }
+                            _ => return Err("lookup is not a single adjustment".into()),
+                        }
+                    }
+                    let mut probes: Vec<u16> = rules.keys().flat_map(|g| [*g, g.wrapping_add(1), g.wrapping_sub(1)]).collect();
+                    probes.sort();
+                    probes.dedup();
+                    for gl in probes {
+                        let mut got: Option<Val> = None;
+                        for s in &subs {
+                            match s {
+                                RSinglePos::Format1(t) => {
+                                    if t.coverage().map_err(|e| e.to_string())?.get(GlyphId16::new(gl)).is_some() {
+                                        got = Some(val(&t.value_record(), t.offset_data())?);
+                                        break;
+                                    }
+                                }
+                                RSinglePos::Format2(t) => {
+                                    if let Some(ci) = t.coverage().map_err(|e| e.to_string())?.get(GlyphId16::new(gl)) {
+                                        let r = t.value_records().get(ci as usize).map_err(|e| e.to_string())?;
+                                        got = Some(val(&r, t.offset_data())?);
+                                        break;
+                                    }
+                                }
+                            }
+                        }
+                        let want = rules.get(&gl).copied();
+                        // an all-zero record and no record are the same adjustment
+                        if got.unwrap_or(ZERO) != want.unwrap_or(ZERO) {
+                            return Ok(Some(format!("glyph {gl}: compiled {got:?}, rules {want:?}")));
+                        }
+                    }
+                    Ok(None)
+                };
+                match check() {
+                    Ok(None) => rep.distinct += 1,
+                    Ok(Some(diff)) => {
+                        rep.add("growth_findings", 1);
+                        rep.sample(json!({"growth": diff, "case": case}));
+                    }
+                    Err(e) => {
+                        rep.add("growth_findings", 1);
+                        rep.sample(json!({"growth": format!("unreadable: {e}"), "case": case}));
+                    }
+                }
+            }
+            rep.traces = rep.evaluations;
+        }
         Some("lookups") => {
             let seed: u64 = arg_after(args, "--seed").map(|s| s.parse().unwrap()).unwrap_or(0);
             let n: usize = arg_after(args, "--n").map(|s| s.parse().unwrap()).unwrap_or(200);
